@@ -242,3 +242,46 @@ func VerifC14_Recursive() {
 	verifObserve("accepted", err == nil)
 	verifReach("C14/recursive/end")
 }
+
+// self-referential graphs of one-property objects (the lone-value shorthand follows such chains): the chain may run
+// into a cycle that does not contain the object it started from; every finite input still gets an answer
+func VerifC14_RecursiveChains() {
+	one := func(id, target string) *ObjectSchema {
+		return NewObjectSchema(id, map[string]*PropertySchema{"next": verifRefProp(NewRefSchema(target, nil))})
+	}
+	var s *ScopeSchema
+	switch nondetChoice("graph", 4) {
+	case 0:
+		s = NewScopeSchema(one("A", "A"))
+	case 1:
+		s = NewScopeSchema(one("A", "B"), one("B", "A"))
+	case 2: // A -> B -> B
+		s = NewScopeSchema(one("A", "B"), one("B", "B"))
+	case 3: // A -> B -> C -> B
+		s = NewScopeSchema(one("A", "B"), one("B", "C"), one("C", "B"))
+	}
+	var in any
+	switch nondetChoice("input", 5) {
+	case 0:
+		in = "x"
+	case 1:
+		in = nondetInt64("n")
+	case 2:
+		in = []any{int64(1)}
+	case 3:
+		in = map[string]any{}
+	case 4:
+		in = map[string]any{"next": map[string]any{"next": map[string]any{}}}
+	}
+	_, isMap := in.(map[string]any)
+	u, err := s.Unserialize(in)
+	// a non-map value can never be the shorthand of an endless chain; maps of any finite depth are accepted
+	verifAssert("C14/chains/accepted-iff-finite-mapping", (err == nil) == isMap)
+	if err == nil {
+		verifAssert("C14/chains/validates", s.Validate(u) == nil)
+	}
+	verifObserve("accepted", err == nil)
+	verifReach("C14/chains/end")
+}
+
+func init() { verifRegister("VerifC14_RecursiveChains", VerifC14_RecursiveChains) }
